@@ -125,23 +125,23 @@ theorem reload_hdr {d : Disk} (hc : Coh d) (hh : HdrD d) : HdrD (reload d) ∧ (
   exact ⟨⟨hh.c, hsz, ⟨sec, hu, hl, hd⟩⟩, rfl⟩
 
 /-- a history without `init` keeps the header (and coherence) -/
-theorem exec_hdr : ∀ (steps : List Step) {d : Disk}, Coh d → HdrD d → (∀ vol sectors, Step.op (.init vol sectors) ∉ steps) →
-    HdrD (exec d steps).2 ∧ (exec d steps).2.c = d.c := by
-  intro steps
-  induction steps with
-  | nil => intro d _ h _; exact ⟨h, rfl⟩
+theorem exec_hdr (steps : List Step) {d : Disk} (hc : Coh d) (hh : HdrD d) (hn : ∀ vol sectors, Step.op (.init vol sectors) ∉ steps)
+    (rp : Repairs := {}) : HdrD (exec d steps rp).2 ∧ (exec d steps rp).2.c = d.c := by
+  induction steps generalizing d with
+  | nil => unfold exec; exact ⟨hh, rfl⟩
   | cons s rest ih =>
-    intro d hc hh hn
     have hn' : ∀ vol sectors, Step.op (.init vol sectors) ∉ rest := fun v s hm => hn v s (List.mem_cons_of_mem _ hm)
     cases s with
     | op o =>
       have ho : ∀ vol sectors, o ≠ .init vol sectors := fun v s e => hn v s (by rw [e]; exact List.mem_cons_self)
-      obtain ⟨h1, c1⟩ := op_hdr hh o ho
-      obtain ⟨h2, c2⟩ := ih (op_sim (DSim.same hc) o).2.coh h1 hn'
+      obtain ⟨h1, c1⟩ := op_hdr hh o ho rp
+      obtain ⟨h2, c2⟩ := ih (op_sim (DSim.same hc) o rp).2.coh h1 hn'
+      rw [exec]
       exact ⟨h2, by rw [← c1]; exact c2⟩
     | reload =>
       obtain ⟨h1, c1⟩ := reload_hdr hc hh
       obtain ⟨h2, c2⟩ := ih (reload_dsim hc).coh' h1 hn'
+      rw [exec]
       exact ⟨h2, by rw [← c1]; exact c2⟩
 
 /-! ## the ambiguity: a VTOC look-alike wins -/
